@@ -225,6 +225,7 @@ pub struct World {
     pub epoch_ns: u64,
     pub send_faults: Option<SendFaultPlan>,
     send_fault_armed: (u64, u64),
+    fault_phase_rng: Rng,
     /// per socket: indices into `delivered` of the datagrams still in its receive queue
     inbox_fifo: HashMap<SocketAddr, std::collections::VecDeque<usize>>,
     pub seq: u64,
@@ -329,6 +330,7 @@ impl World {
             epoch_ns: pick_epoch_ns(mix(seed, 0xe90c)),
             send_faults: None,
             send_fault_armed: (0, 0),
+            fault_phase_rng: Rng::new(mix(seed, 0xfa5e)),
             inbox_fifo: HashMap::new(),
             seq: 0,
             rng: Rng::new(mix(seed, 0x3e7)),
@@ -427,7 +429,12 @@ impl World {
             let want: u64 = if t >= plan.until_ns { 0 } else if burst { 1 } else if plan.only_server.map_or(true, |s| s == is_server) { plan.every } else { 0 };
             let rburst = plan.recv_bursts.iter().any(|b| b.1 <= t && t < b.2 && b.0.map_or(true, |s| s == is_server));
             let rwant: u64 = if t >= plan.until_ns { 0 } else if rburst { 1 } else if plan.only_server.map_or(true, |s| s == is_server) { plan.recv_every } else { 0 };
-            if (want, rwant) != self.send_fault_armed {
+            // (the hook's "every n-th call" counters are shared by all sockets of the thread: with fixed
+            // step cadences the failing call can lock onto one endpoint for the whole session — a
+            // socket that fails on EVERY call; the counters are restarted at random moments so that
+            // the phase drifts)
+            let rephase = (want > 1 || rwant > 1) && self.fault_phase_rng.chance(0.03);
+            if (want, rwant) != self.send_fault_armed || rephase {
                 let (_, re) = uv::net::socket_fault_counts();
                 self.c.add("receive_calls_failed_by_the_socket", re as i128);
                 self.send_fault_armed = (want, rwant);
